@@ -12,9 +12,11 @@ use std::time::Duration;
 /// Resource bound (see DESIGN.md §2.1 E6): with n = input length and d = bytes produced by stream filters,
 /// total bytes allocated T <= B0 + B1*(n+d) and peak live bytes P <= A0 + A1*(n+d).
 /// Calibrated on the corpus and on generated documents (max observed ratios x16 headroom; see evidence).
-pub const B0: u64 = 64 << 20;
+/// The constants leave room for what the library bounds by its own fixed caps, e.g. a cross-reference
+/// table for the largest /Size it accepts (MAX_ID = 1 000 000 entries, about 48 MB at peak).
+pub const B0: u64 = 256 << 20;
 pub const B1: u64 = 4000;
-pub const A0: u64 = 32 << 20;
+pub const A0: u64 = 128 << 20;
 pub const A1: u64 = 400;
 pub const TIMEOUT_S: u64 = 40;
 
